@@ -1,10 +1,10 @@
 package main
 
 import (
-	"sort"
 	"go/ast"
 	"go/token"
 	"go/types"
+	"sort"
 	"strings"
 )
 
